@@ -284,11 +284,39 @@ def read_at(stream, off: int, n: int) -> bytes:
     return stream.read(n)
 
 
-def check_reads(out: Outcome, stream, model, requests, tag: str, limit_fail: int = 2) -> None:
-    """Compare stream reads with the model for every (offset, length) request."""
+def check_reads(out: Outcome, stream, model, requests, tag: str, limit_fail: int = 2, fault=None, fault_fh=None) -> None:
+    """Compare stream reads with the model for every (offset, length) request.
+
+    fault = [request index, k] with fault_fh = the caller-side SparseFile under the stream: the k-th read() the library issues on
+    that handle while serving that request fails once with an OSError (a transient I/O error of the caller's storage).  The
+    library may let any exception out of that call; the caller then repeats the same request on the same object, and that
+    repeat -- like every later request -- must return the model's bytes (nothing half-updated may survive the failed call)."""
     nfail = 0
-    for off, n in requests:
-        got, err = lib(read_at, stream, off, n)
+    for ri, (off, n) in enumerate(requests):
+        if fault and fault_fh is not None and ri == fault[0]:
+            fault_fh.fault_fired = False
+            fault_fh.fault_in = fault[1]
+            got, err = lib(read_at, stream, off, n)
+            fault_fh.fault_in = None
+            if fault_fh.fault_fired:
+                out.cls("transient-fault-then-retry")
+                if err is None and got != model.read_at(off, n):
+                    out.fail(f"mismatch|{tag}-during-fault", "a read during which the file object raised an I/O error returned wrong bytes instead of raising: "
+                             + describe_mismatch(off, n, got, model.read_at(off, n)))
+                    nfail += 1
+                tag_r = tag + "-retry-after-fault"
+                got, err = lib(read_at, stream, off, n)
+                if err is not None:
+                    out.fail(err.sig(tag_r), f"read(off={off:#x}, n={n:#x}) repeated after a transient I/O error raised {err.describe()}")
+                    nfail += 1
+                elif got != model.read_at(off, n):
+                    out.fail(f"mismatch|{tag_r}", "repeated after a transient I/O error: " + describe_mismatch(off, n, got, model.read_at(off, n)))
+                    nfail += 1
+                if nfail >= limit_fail:
+                    break
+                continue
+        else:
+            got, err = lib(read_at, stream, off, n)
         if err is not None:
             out.fail(err.sig(tag), f"read(off={off:#x}, n={n:#x}) raised {err.describe()}")
             nfail += 1
